@@ -217,18 +217,27 @@ func refClass(body []byte) c03Class {
 	return c
 }
 
-// Harness_C03class: arg = number of symbolic class-body bytes.
-func Harness_C03class(n int) {
-	body := symBytes("b", n)
+// c03ClassShapes: concrete text around the symbolic class-body bytes, so that
+// the symbolic bytes also land behind a pending character, behind a complete
+// range, between two ranges, and in front of a trailing dash.
+var c03ClassShapes = [][2]string{
+	{"", ""}, {"x", ""}, {"a-c", ""}, {"xa-c", ""}, {"", "a-c"}, {"x", "z"}, {"xa-c0-9", ""}, {"-", "-"}, {"xa-c", "e"},
+}
+
+// Harness_C03class: arg = 10*shape + number of symbolic class-body bytes.
+func Harness_C03class(arg int) {
+	shape, n := c03ClassShapes[arg/10], arg%10
+	hole := symBytes("b", n)
 	inv := symBool("inverted")
 	ic := symBool("ignorecase")
-	for i, b := range body {
+	for i, b := range hole {
 		// printable ASCII without the characters that need escaping
 		symAssume(b >= 0x20 && b < 0x7f && b != ']' && b != '\\')
-		if i == 0 {
+		if i == 0 && shape[0] == "" {
 			symAssume(b != '^')
 		}
 	}
+	body := append(append([]byte(shape[0]), hole...), shape[1]...)
 	text := []byte("A <- [")
 	if inv {
 		text = append(text, '^')
